@@ -181,12 +181,23 @@ theorem sampleScan_some {s : Space} {u : Sub} {t : Table} {k : Nat} {cs : List N
             exact ⟨by simpa using hm, by simpa using hfree⟩
           · cases h
 
-theorem sampleBlock_spec {req : Req} {now : Nat} {smp : List Nat} {db db' : Db} {r : Option Nat}
-    (h : sampleBlock req now smp db = .ok (db', r)) :
-    (r = none ∧ db' = db) ∨
-    (∃ id, r = some id ∧ req.space.containsInSub id req.sub = some true ∧
+theorem byDesc_eraseAll_nil {t : Table} {s : Space} {u : Sub} {d : String} (ids : List Nat)
+    (h : t.byDesc s u d = []) : (t.eraseAll ids).byDesc s u d = [] := by
+  unfold Table.byDesc Table.eraseAll at *
+  rw [List.filter_eq_nil_iff] at h ⊢
+  intro r hr
+  exact h r (List.mem_filter.1 hr).1
+
+/-- run after a lookup that missed, a sampling block never finds the description: it either gives
+    up (nothing changed) or binds a free member id -/
+theorem sampleBlock_spec {req : Req} {now pick : Nat} {smp : List Nat} {db db' : Db} {r : SampleRes}
+    (hmiss : (db.ids req.space).byDesc req.space req.sub req.desc = [])
+    (h : sampleBlock req now pick smp db = .ok (db', r)) :
+    (r = .none ∧ db' = db) ∨
+    (∃ id, r = .inserted id ∧ req.space.containsInSub id req.sub = some true ∧
       (db.ids req.space).hasId id = false ∧ setId db id req.desc now = .ok db') := by
   unfold sampleBlock at h
+  simp only [hmiss, List.isEmpty_nil, Bool.not_true, Bool.false_eq_true, ↓reduceIte] at h
   split at h
   · cases h
   · injection h with h; injection h with h1 h2; exact Or.inl ⟨h2.symm, h1.symm⟩
@@ -214,12 +225,13 @@ inductive Cleanups (s : Space) (u : Sub) : Db → Db → Prop
   | step {db db1 db2 : Db} (m : Nat) (removed : List Nat) (h : cleanup db s u m removed = .ok db1)
       (rest : Cleanups s u db1 db2) : Cleanups s u db db2
 
-theorem sampleRounds_spec {cfg : Cfg} {req : Req} {now : Nat} {fs : List (Option (Nat × Nat))}
-    {ss rs : List (List Nat)} {db db' : Db} {acc acc' : List Nat} {r : Option Nat}
-    (h : sampleRounds cfg req now fs ss rs db acc = .ok (db', r, acc')) :
+theorem sampleRounds_spec {cfg : Cfg} {req : Req} {now pick : Nat} {fs : List (Option (Nat × Nat))}
+    {ss rs : List (List Nat)} {db db' : Db} {acc acc' : List Nat} {r : SampleRes}
+    (hmiss : (db.ids req.space).byDesc req.space req.sub req.desc = [])
+    (h : sampleRounds cfg req now pick fs ss rs db acc = .ok (db', r, acc')) :
     ∃ db1, Cleanups req.space req.sub db db1 ∧
-      ((r = none ∧ db' = db1) ∨
-       (∃ id, r = some id ∧ req.space.containsInSub id req.sub = some true ∧
+      ((r = .none ∧ db' = db1) ∨
+       (∃ id, r = .inserted id ∧ req.space.containsInSub id req.sub = some true ∧
          (db1.ids req.space).hasId id = false ∧ setId db1 id req.desc now = .ok db')) := by
   induction fs generalizing ss rs db acc with
   | nil =>
@@ -233,13 +245,17 @@ theorem sampleRounds_spec {cfg : Cfg} {req : Req} {now : Nat} {fs : List (Option
     · next dbb id hsb =>
       split at h
       · injection h with h; injection h with h1 h2; injection h2 with h2 h3; subst h1 h2
-        rcases sampleBlock_spec hsb with ⟨hn, _⟩ | ⟨id', hid', hm, hf, hset⟩
+        rcases sampleBlock_spec hmiss hsb with ⟨hn, _⟩ | ⟨id', hid', hm, hf, hset⟩
         · cases hn
         · injection hid' with hid'; subst hid'
           exact ⟨db, .refl db, Or.inr ⟨id, rfl, hm, hf, hset⟩⟩
       · cases h
+    · next dbb id hsb =>
+      rcases sampleBlock_spec hmiss hsb with ⟨hn, _⟩ | ⟨id', hid', _⟩
+      · cases hn
+      · cases hid'
     · next dbb hsb =>
-      rcases sampleBlock_spec hsb with ⟨_, hdb⟩ | ⟨id', hid', _⟩
+      rcases sampleBlock_spec hmiss hsb with ⟨_, hdb⟩ | ⟨id', hid', _⟩
       · subst hdb
         split at h
         · injection h with h; injection h with h1 h2; injection h2 with h2 h3
@@ -248,7 +264,10 @@ theorem sampleRounds_spec {cfg : Cfg} {req : Req} {now : Nat} {fs : List (Option
           split at h
           · cases h
           · next db2 hcl =>
-            obtain ⟨db1, hcs, hres⟩ := ih h
+            have hmiss2 : (db2.ids req.space).byDesc req.space req.sub req.desc = [] := by
+              obtain ⟨_, rfl⟩ := cleanup_ok hcl
+              rw [ids_setIds_same]; exact byDesc_eraseAll_nil _ hmiss
+            obtain ⟨db1, hcs, hres⟩ := ih hmiss2 h
             exact ⟨db1, .step _ _ hcl hcs, hres⟩
       · cases hid'
 
@@ -287,16 +306,28 @@ theorem getId_spec {cfg : Cfg} {req : Req} {now : Nat} {ch : GetChoice} {db db' 
       · cases h
       · next db2 id removed hsr =>
         injection h with h; injection h with h1 h2; injection h2 with h2 h3; subst h1 h2 h3
-        obtain ⟨db1, hcs, hres⟩ := sampleRounds_spec hsr
+        obtain ⟨db1, hcs, hres⟩ := sampleRounds_spec hmiss hsr
         rcases hres with ⟨hn, _⟩ | ⟨id', hid', hm, hf, hset⟩
         · cases hn
         · injection hid' with hid'; subst hid'
           exact .sampled hmiss henum hcs hm hf hset
+      · next db2 id removed hsr =>
+        obtain ⟨db1, hcs, hres⟩ := sampleRounds_spec hmiss hsr
+        rcases hres with ⟨hn, _⟩ | ⟨id', hid', _⟩
+        · cases hn
+        · cases hid'
       · next db2 removed hsr =>
         injection h with h; injection h with h1 h2; injection h2 with h2 h3; subst h1 h2 h3
-        obtain ⟨db1, hcs, hres⟩ := sampleRounds_spec hsr
+        obtain ⟨db1, hcs, hres⟩ := sampleRounds_spec hmiss hsr
         rcases hres with ⟨_, hdb⟩ | ⟨id', hid', _⟩
         · subst hdb; exact .exhausted hmiss henum hcs
         · cases hid'
+
+/-- run alone, `get_id` never takes the `foundLate` exit of the repaired sampling block -/
+theorem getId_not_foundLate {cfg : Cfg} {req : Req} {now : Nat} {ch : GetChoice} {db db' : Db} {res : GetRes}
+    {removed : List Nat} : getId cfg db req now ch ≠ .ok (db', res, .foundLate removed) := by
+  intro h
+  cases getId_spec h with
+  | block hb => cases hb
 
 end Tup.AllocLemmas
